@@ -27,7 +27,9 @@ STRINGS = [{}, {}, {"display_exponent": "^"}, {"display_multiply": " "},
            {"display_exponent": "^", "display_multiply": ""}]
 ORDER_BASED = {"less", "less_equal", "greater", "greater_equal", "maximum", "minimum", "amax", "amin",
                "max", "min", "argmax", "argmin", "compare"}
-SKIP = {"copyto"}
+# explicit output targets are laid out for one option setting (their names / terms are what the
+# operation produces under that setting): not comparable across settings
+SKIP = {"copyto", "stack_out"}
 META = {
     "level": "exploration",
     "rule": (
